@@ -4,7 +4,9 @@ RULE = ("stateless exploration of the real Reader pipeline (read thread -> input
         "consumer) under the vsched scheduler: every schedule with at most k deviations from the deterministic lowest-id-first scheduler "
         "(delay bounding; plus preemption bounding with free switches on one configuration per format), k iterated smallest first across "
         "all configurations. Inputs: 11-object OPL/XML/PBF/o5m files (OPL, XML and o5m from hand-written encoders independent of the library) delivered in 64-byte pieces (hook H5) into 512/256-byte parser buffers "
-        "(hook H6, so nested buffers and back-pressure occur). Oracle: the delivered (type,id,version,metadata,tags,location/refs/members) "
+        "(hook H6, so nested buffers and back-pressure occur); plus, through hook H8, every initial capacity 64..640 step 8 of the parsers' "
+        "buffers for all four formats at the deterministic schedule (for some capacity every builder call of a decoder is the one at which the "
+        "buffer grows). Oracle: the delivered (type,id,version,metadata,tags,location/refs/members) "
         "sequence equals the abstract object list filtered by the entity mask; read() after end of data throws. evaluations = complete "
         "schedules; distinct_nontrivial = schedules deviating from the default schedule (distinct by choice sequence).")
 DEADLINE = {"quick": 220, "thorough": 1500}
@@ -15,7 +17,8 @@ FLAGS = ["-fno-access-control", "-DOSMIUM_VERIF_INPUT_BUFFER_SIZE=64", "-DOSMIUM
 def build(ctx):
     vs = ctx.vsched_obj()
     return {"h05": ctx.build("h05", ["h05.cpp"], flags=FLAGS, opt="-O1", objects=[vs]),
-            "h05tsan": ctx.build_tsan_free("h05tsan", ["h05.cpp"], flags=FLAGS)}
+            "h05tsan": ctx.build_tsan_free("h05tsan", ["h05.cpp"], flags=FLAGS),
+            "h05cap": ctx.build("h05cap", ["h05.cpp"], flags=["-fno-access-control", "-DOSMIUM_VERIF_INPUT_BUFFER_SIZE=64", "-DOSMIUM_VERIF_DYNAMIC_BUFFER_SIZE"], opt="-O1", objects=[vs])}
 
 
 def run(ctx):
@@ -28,6 +31,8 @@ def run(ctx):
     import os
     ctx.run_harness(exes["h05tsan"], ["--iterations", "5" if ctx.tier == "quick" else "40", "--deadline", "40" if ctx.tier == "quick" else "300"],
                     env={"TSAN_OPTIONS": "halt_on_error=0:exitcode=66:suppressions=" + os.path.join(os.path.dirname(os.path.dirname(ctx.checkdir)), "engine", "vsched", "tsan.supp")}, timeout=120 if ctx.tier == "quick" else 500)
+    # hook H8: the same pipeline with every initial capacity 64..640 (step 8) of the parsers' buffers, all four formats
+    ctx.run_harness(exes["h05cap"], ["--capsweep"])
     ctx.run_harness(exe, [])
     ctx.assume("sequentially consistent scheduler; no spurious wake-ups; PBF test file written by the library's own Writer "
                "(the expectation is the abstract object list, not the Writer's output)")
